@@ -168,6 +168,42 @@ def run(ctx):
         d = dict(r[3]) if r[0] == "adt" else {}
         ctx.check(d.get("registers", ("x",))[:2] == ("param", 2) and d.get("b", ("x",))[:2] == ("param", 1) and d.get("buildhasher", ("x",))[:2] == ("param", 3),
                   "R17-roundtrip", ctor.key, ctor, "constructor stores (b, registers, buildhasher) unmodified", "constructor transforms its arguments: %s" % fmt(r))
+    if ctor is not None:
+        # R17-ctor-admits: registers().to_vec() of ANY sketch must be accepted back. A register can hold every rank add_hashed can
+        # produce: leading_zeros(h >> b) + 1 - b with leading_zeros in [b, 64], i.e. 1 ..= 65 - b (and 0 for an untouched register).
+        # Panic sites of the constructor whose condition looks at register VALUES (not at b or the length) must admit all of them.
+        from ..guards import panic_sites, atomic_facts, entails_ge0
+        from ..terms import apply_closure
+        tbc = TermBuilder(ctor, prog)
+        regp = ("param", 2, ctor.local_name(2))
+        b_p = ("param", 1, ctor.local_name(1))
+        n_val = 0
+        for (bi, kind, detail, span) in panic_sites(ctor):
+            if not (kind in ("assert", "panic", "debug_assert", "assert_eq", "assert_ne") or kind.startswith("Assert:BoundsCheck")):
+                continue
+            for c, tr in atomic_facts(ctor, prog, bi, tbc):
+                looks_at_values = any(s_ in (("elem", regp),) or (s_[0] == "index" and s_[1] == regp) or
+                                      (s_[0] == "call" and s_[1].endswith(("::all", "::any", "::max", "::min", "::fold")) and s_[2] and s_[2][0] == regp) for s_ in subterms(c))
+                if not looks_at_values:
+                    continue
+                n_val += 1
+                okv, why = False, "the validation %s is not understood" % fmt(c)[:120]
+                if c[0] == "call" and c[1].endswith("::all") and len(c[2]) == 2 and c[2][1][0] == "closure" and tr is False:
+                    # panics unless every register satisfies the predicate: the predicate must hold for every rank up to 65 - b
+                    d_ = ("elem", ("dummy",))
+                    pred = apply_closure(c[2][1], (d_,))
+                    if pred[0] == "op" and pred[1] in ("Le", "Lt") and len(pred[2]) == 2:
+                        lhs, rhs = pred[2]
+                        lhs = lhs[2] if lhs[0] == "cast" else lhs
+                        if lhs == d_:
+                            top = mk("Sub", const(65), b_p)
+                            need = mk("Sub", rhs, top) if pred[1] == "Le" else mk("Sub", mk("Sub", rhs, top), const(1))
+                            okv = entails_ge0([], need)
+                            why = "registers are required to be %s %s, but add_hashed stores ranks up to 64 - b + 1 (hash with no set bit above the address bits)" % ("<=" if pred[1] == "Le" else "<", fmt(rhs))
+                ctx.check(okv, "R17-ctor-admits", "%s:value-validation" % ctor.key, span, "the constructor's validation of register values admits every reachable rank",
+                          "with_registers_and_hash rejects register contents that add_hashed can produce, so registers().to_vec() does not always round-trip: %s" % why)
+        if n_val == 0:
+            ctx.ok("R17-ctor-admits", ctor.key, "the constructor does not validate register values (every byte vector of the right length is admitted)", nontrivial=False)
     regs = ctx.anchor(HLL + "::registers")
     if regs is not None:
         r = TermBuilder(regs, prog).return_term()
